@@ -73,17 +73,19 @@ def run(ctx):
     q = ctx.quick()
     pool = {1, 2, 3, 5, 6, 7} if q else set(range(1, 11))
     # ---------------------------------------------------------------- 1. TLC: enumerate + decide
-    res = ctx.tlc("Schemas", "Schemas_gen.cfg", consts=dict(MaxSpecific=2, PatPool=pool, Dev="none"), workers=1,
-                  timeout=3000, heap="8g")
-    lines = None
-    for s in ctx.tlc_printed(res, "@@L"):
-        lines = json.loads(s)
-    cases, seen = [], set()
-    for s in ctx.tlc_printed(res, "@@C"):
-        if s in seen:
-            continue
-        seen.add(s)
-        cases.append(json.loads(s))
+    gens = [dict(MaxSpecific=2, PatPool=pool, Dev="none")]
+    if not q:
+        gens.append(dict(MaxSpecific=3, PatPool={1, 5, 6}, Dev="none"))      # 4-rule lists
+    lines, cases, seen = None, [], set()
+    for g in gens:
+        res = ctx.tlc("Schemas", "Schemas_gen.cfg", consts=g, workers=1, timeout=3000, heap="8g")
+        for s in ctx.tlc_printed(res, "@@L"):
+            lines = json.loads(s)
+        for s in ctx.tlc_printed(res, "@@C"):
+            if s in seen:
+                continue
+            seen.add(s)
+            cases.append(json.loads(s))
     if not lines or len(cases) < 100:
         raise Machinery("TLC generated no cases; log %s" % res["log"])
     ctx.log("TLC enumerated %d rule lists x %d line classes" % (len(cases), len(lines)))
@@ -296,7 +298,7 @@ def run(ctx):
     cov["grafanaNet_records"] = ngn
     cov["pickle_points"] = npk
     cov["rule"] = ("cases = every storage-schemas rule list enumerated by TLC (default rule at any position with/without "
-                   "priority + <= 2 rules from %d patterns x 3 priorities; retentions in old and new syntax) x %d line classes "
+                   "priority + <= 2 rules from %d patterns x 3 priorities (thorough: also <= 3 rules from 3 patterns); retentions in old and new syntax) x %d line classes "
                    "(3 names x 5 tag lists incl. unsorted, 3 invalid-tag lists, 3 unrepresentable timestamp classes); "
                    "distinct_nontrivial = distinct (rule list with >= 2 rules, representable line) pairs whose MetricData was "
                    "compared field by field with TLC's expectation; pickle: %d lines (line classes x value spellings x timestamps)"
